@@ -158,6 +158,15 @@ def f_data_columns(S, pos):
     S["data"] = data[:, :-1] if k == -1 else np.c_[data, data[:, 0]]
 
 
+def f_data_flat(S, pos):
+    """one-dimensional data for a model of two or more variables (a single column / Series, or the flattened matrix),
+    of a length that is a multiple of n_dim"""
+    data = np.asarray(S["data"])
+    n_dim = data.shape[1]
+    m = (len(data) // n_dim) * n_dim
+    S["data"] = data[:m, 0].copy() if S["variant"] == "one_column" else data[:m].ravel().copy()
+
+
 def f_fitdesc_length(S, pos):
     n = len(S["descs"])
     S["fit_descriptions"] = [None] * (n + S["variant"])
@@ -197,6 +206,7 @@ reg("parameter_neither", "model", lambda st, p, fam: st[p] is not None and len(P
 reg("first_variable_conditional", "model", lambda st, p, fam: p == 0, f_first_conditional, variants=[0, 1])
 reg("conditional_on", "model", lambda st, p, fam: st[p] is not None, f_cond_on, variants=["self", "later", "nonexistent", "negative", "float", "str"])
 reg("data_columns", "fit", lambda st, p, fam: p == 0, f_data_columns, variants=[-1, +1])
+reg("data_one_dimensional", "fit", lambda st, p, fam: p == 0 and len(st) >= 2, f_data_flat, variants=["one_column", "flattened"])
 reg("fit_descriptions_length", "fit", lambda st, p, fam: p == 0, f_fitdesc_length, variants=[-1, +1])
 reg("fit_description_without_method", "fit", lambda st, p, fam: True, f_fitdesc_no_method)
 reg("unknown_fit_method", "fit", lambda st, p, fam: True, f_fitdesc_unknown_method, variants=["mlee", "least_squares", ""])
@@ -313,9 +323,11 @@ def enum_model_faults(tier, shard, nshards):
                                     continue
                                 if fault2["name"] in ("first_variable_conditional", "data_columns", "fit_descriptions_length") and FAULTS[s[0]]["name"] == fault2["name"]:
                                     continue
+                                if {fault2["name"], FAULTS[s[0]]["name"]} == {"data_columns", "data_one_dimensional"} or (fault2["name"] == "data_one_dimensional" and FAULTS[s[0]]["name"] == "data_one_dimensional"):
+                                    continue  # both rewrite the data matrix
                                 if {fault2["name"], FAULTS[s[0]]["name"]} & {"fit_descriptions_length"} and {fault2["name"], FAULTS[s[0]]["name"]} & {"fit_description_without_method", "unknown_fit_method", "ew_weights"}:
                                     continue  # both write fit_descriptions
-                                if fault2["stage"] == "fit" and FAULTS[s[0]]["stage"] == "fit" and fault2["name"] != "data_columns" and FAULTS[s[0]]["name"] != "data_columns" and pos2 == pos:
+                                if fault2["stage"] == "fit" and FAULTS[s[0]]["stage"] == "fit" and fault2["name"] not in ("data_columns", "data_one_dimensional") and FAULTS[s[0]]["name"] not in ("data_columns", "data_one_dimensional") and pos2 == pos:
                                     continue
                                 if pos2 == pos and {fault2["name"], FAULTS[s[0]]["name"]} & {"missing_distribution", "parameter_neither", "first_variable_conditional", "conditional_without_parameters"}:
                                     continue  # would operate on keys the other fault removed
